@@ -205,7 +205,7 @@ def normalize_next_genexp(P):
         tnames = [x.id for x in ast.walk(comp.target) if isinstance(x, ast.Name)]
         if not tnames or any(x in taken for x in tnames):
             return None  # the loop variables would leak over locals of the same name
-        if default is None and not isinstance(comp.target, ast.Name):
+        if default is None and isinstance(g.elt, ast.Tuple):
             return None  # (the tables read `next((i, v) for i, v in ..)` without a default as a term)
         asg = ast.Assign(targets=copy.deepcopy(stmt.targets), value=copy.deepcopy(g.elt))
         inner = [asg, ast.Break()]
